@@ -248,7 +248,7 @@ func cmdHist(o *Out, line string, f []string) {
 				obs = append(obs, "o")
 				accepted = append(accepted, proj(raw))
 				// durability bound (C09): k accepted samples, chunk size N => at least N*floor((k-1)/N) in the writer
-				if isStreaming(ctor) && !explicitSplit && len(script) == 0 && n >= 1 {
+				if isStreaming(ctor) && !explicitSplit && len(script) == 0 && n >= 1 && oneSchema(accepted) {
 					if k := len(accepted); inWriter() < n*((k-1)/n) {
 						bad("fewer samples are durable than the chunk size guarantees", map[string]int{"accepted": k, "inWriter": inWriter(), "N": n})
 					}
@@ -403,6 +403,28 @@ func cmdHist(o *Out, line string, f []string) {
 // streams that guarantee runs are delimited by key changes (the schema stream overrides it).
 var sameSchemaRun = func(o *Out, line string, i int) bool { return true }
 
+// oneSchema: all documents have the same metric keys and types (the durability bound speaks about one schema run)
+func oneSchema(docs []string) bool {
+	first := ""
+	for i, d := range docs {
+		kids, err := parseDocStrict(unhx(d))
+		if err != nil {
+			return false
+		}
+		var parts []string
+		for _, l := range leavesOf(kids, nil, false, "") {
+			parts = append(parts, fmt.Sprintf("%02x:%s", l.Tag, strings.Join(l.Path, ".")))
+		}
+		sig := strings.Join(parts, ";")
+		if i == 0 {
+			first = sig
+		} else if sig != first {
+			return false
+		}
+	}
+	return true
+}
+
 func leafSigs(docs []string) []string {
 	out := make([]string, len(docs))
 	for i, d := range docs {
@@ -554,7 +576,14 @@ func streamSchema(o *Out, rng *rand.Rand, thorough bool, _ []string) {
 				ops = append(ops, fmt.Sprintf("a%d", idx))
 			}
 			for _, ctor := range cts {
-				for _, n := range []int{1, 2, 3, 10} {
+				nsz := []int{1, 2, 3}
+				if thorough {
+					nsz = []int{1, 2, 3, 10}
+				}
+				for _, n := range nsz {
+					if !thorough && n != 2 && (ctor == "base" || ctor == "batch" || ctor == "streaming") {
+						continue
+					}
 					run(o, fmt.Sprintf("hist %s %d - | %s | %s", ctor, n, strings.Join(pool, " "), strings.Join(ops, " ")))
 				}
 			}
@@ -563,8 +592,11 @@ func streamSchema(o *Out, rng *rand.Rand, thorough bool, _ []string) {
 			return
 		}
 		lim := ns
-		if len(prefix) >= 2 && !thorough {
-			lim = 5 // keep the quick tier small: A..E at depth >= 3
+		if len(prefix) >= 3 && !thorough {
+			lim = 4 // keep the quick tier small: A..D at depth 4
+		}
+		if len(prefix) >= 3 && !thorough && prefix[0] >= 4 {
+			return
 		}
 		for s := 0; s < lim; s++ {
 			rec(append(append([]int{}, prefix...), s))
